@@ -80,8 +80,10 @@ def tr_params(tr, spell='12'):
 
 def tr_params_star(tr):
     """Starred form: angles in degrees (signed-permutation matrices: 0, 90, 180)."""
+    import math
     ang = {1: '0', 0: '90', -1: '180'}
-    return [num(v) for v in tr['o']] + [ang[v] for v in tr['m']]
+    return [num(v) for v in tr['o']] + [ang[v] if isinstance(v, int) else repr(math.degrees(math.acos(max(-1.0, min(1.0, v)))))
+                                        for v in tr['m']]
 
 
 def surf_param_text(s):
@@ -396,6 +398,243 @@ def moved_points(pts2, phi):
         u = [P[0] / 2.0, P[1] / 2.0, P[2] / 2.0]
         out.append(tuple(o[r] + sum(R[r][c] * u[c] for c in range(3)) for r in range(3)))
     return out
+
+
+def _tr_to_affine(tr):
+    """(o, L): x_main = o + L . x_aux, L[r][c] = image of auxiliary axis c, component r."""
+    m = tr['m']
+    return list(tr['o']), [[m[3 * c + r] for c in range(3)] for r in range(3)]
+
+
+def _affine_to_tr(o, L):
+    return {'o': list(o), 'm': [L[r][c] for c in range(3) for r in range(3)]}
+
+
+def _aff_compose(b, a):
+    """first a, then b"""
+    ob, Lb = b
+    oa, La = a
+    L = [[sum(Lb[r][k] * La[k][c] for k in range(3)) for c in range(3)] for r in range(3)]
+    o = [ob[r] + sum(Lb[r][k] * oa[k] for k in range(3)) for r in range(3)]
+    return o, L
+
+
+def _aff_inverse(a):
+    """inverse of a rigid motion"""
+    o, L = a
+    Lt = [[L[c][r] for c in range(3)] for r in range(3)]
+    return [-sum(Lt[r][k] * o[k] for k in range(3)) for r in range(3)], Lt
+
+
+def moved_world(deck, phi):
+    """The whole world moved by the rigid motion phi = (o, R): every frame (real world and every universe) is
+    mapped by phi, so every surface card carries phi (composed with its own TR) and every transformation T
+    between frames (TRCL, FILL) becomes phi T phi^-1.  The meaning is covariant: the owner of phi(p) in the moved
+    deck is the owner of p in the exact deck.  Returns an abstract deck with float transformations, or None
+    (LIKE cells and boundary-condition flags are not moved)."""
+    import copy
+    if any(c.get('like') for c in deck['cells']) or any(s.get('bc') for s in deck['surfs']):
+        return None
+    G = (list(phi[0]), [list(row) for row in phi[1]])
+    Ginv = _aff_inverse(G)
+    d = copy.deepcopy(deck)
+    old = {t['n']: t for t in deck.get('trs', [])}
+    cards, cache = [], {}
+    used = set(old)
+
+    def card_for(key, aff):
+        if key in cache:
+            return cache[key]
+        n = 30
+        while n in used:
+            n += 1
+        used.add(n)
+        cache[key] = n
+        cards.append(dict(_affine_to_tr(*aff), n=n, spell='star' if len(cards) % 2 else '12'))
+        return n
+
+    def conj(tr):
+        return _affine_to_tr(*_aff_compose(_aff_compose(G, _tr_to_affine(tr)), Ginv))
+
+    for s in d['surfs']:
+        if s.get('tr'):
+            s['tr'] = card_for(('s', s['tr']), _aff_compose(G, _tr_to_affine(old[s['tr']])))
+        else:
+            s['tr'] = card_for(('s', 0), G)
+    for c in d['cells']:
+        if c['hastrcl']:
+            ident = list(c['trcl']['m']) == IDM
+            c['trcl'] = conj(c['trcl'])
+            if c.get('trclnum'):
+                c['trclnum'] = card_for(('c', c['n']), _tr_to_affine(c['trcl']))
+            elif c['trclspell'] != 'num':
+                c['trclspell'] = c['trclspell'] if (c['trclspell'] == 'star' or (ident and c['trclspell'] == '3')) else '12'
+            if ident:
+                c['trcl']['m'] = list(IDM)
+        if c['hasftr']:
+            ident = list(c['ftr']['m']) == IDM
+            c['ftr'] = conj(c['ftr'])
+            if c['ftrspell'] != 'num':
+                c['ftrspell'] = c['ftrspell'] if (c['ftrspell'] == 'star' or (ident and c['ftrspell'] == '3')) else '12'
+            if ident:
+                c['ftr']['m'] = list(IDM)
+    d['trs'] = cards
+    d.pop('plusspell', None)
+    return d
+
+
+# ---------------------------------------------------------------------------
+# affine covariance (C07, regular hexagons): a deck whose surfaces are planes and origin-centred spheres and
+# whose transformations are translations is covariant under ANY affine map x' = A x + b applied to every frame:
+# planes n.x = d -> (A^-T n).x' = d + (A^-T n).b, spheres -> general quadrics, translations o -> A o.
+
+def _plane_of(s):
+    """(normal, d) of a plane card (entries divided by the card's denominator), or None."""
+    k, p, den = s['k'], s['p'], float(s.get('d', 1))
+    if k == 'p' and len(p) == 4:
+        return [p[0] / den, p[1] / den, p[2] / den], p[3] / den
+    if k in ('px', 'py', 'pz'):
+        n = [0.0, 0.0, 0.0]
+        n['xyz'.index(k[1])] = 1.0
+        return n, p[0] / den
+    return None
+
+
+def translations_only(deck):
+    """Copy of the deck in which every rotation is replaced by the identity (an exact deck of its own)."""
+    import copy
+    d = copy.deepcopy(deck)
+    for t in d.get('trs', []):
+        t['m'] = list(IDM)
+        t['spell'] = '12'
+    for c in d['cells']:
+        if c['lat'] and c['hastrcl'] and c.get('lvecs'):
+            # the base vectors recorded for TLC were turned with the cell's TRCL: turn them back
+            m = c['trcl']['m']
+            c['lvecs'] = [[sum(m[3 * i + k] * v[k] for k in range(3)) for i in range(3)] for v in c['lvecs']]
+        for key in ('trcl', 'ftr'):
+            c[key] = {'o': list(c[key]['o']), 'm': list(IDM)}
+        if c['trclspell'] not in ('num', '3'):
+            c['trclspell'] = '12'
+        if c['ftrspell'] not in ('num', '3'):
+            c['ftrspell'] = '12'
+    return d
+
+
+def affine_world(deck, A, b):
+    """Abstract deck moved by x' = A x + b in every frame (None when the deck is outside the covariant class)."""
+    import copy
+    import numpy as np
+    if any(c.get('like') for c in deck['cells']) or any(s.get('bc') or s.get('tr') for s in deck['surfs']):
+        return None
+    if any(list(t['m']) != IDM for t in deck.get('trs', [])):
+        return None
+    for c in deck['cells']:
+        if (c['hastrcl'] and list(c['trcl']['m']) != IDM) or (c['hasftr'] and list(c['ftr']['m']) != IDM):
+            return None
+    A = np.array(A, dtype=float)
+    b = np.array(b, dtype=float)
+    AinvT = np.linalg.inv(A).T
+    d = copy.deepcopy(deck)
+    for s in d['surfs']:
+        pl = _plane_of(s)
+        if pl is not None:
+            n2 = AinvT @ np.array(pl[0])
+            s['k'], s['p'], s['d'] = 'p', [float(v) for v in n2] + [float(pl[1] + n2 @ b)], 1
+        elif s['k'] == 'so':
+            r = s['p'][0] / float(s.get('d', 1))
+            M = AinvT @ AinvT.T          # A^-T A^-1
+            Mb = M @ b
+            s['k'], s['d'] = 'gq', 1
+            s['p'] = [float(v) for v in (M[0, 0], M[1, 1], M[2, 2], 2 * M[0, 1], 2 * M[1, 2], 2 * M[0, 2],
+                                         -2 * Mb[0], -2 * Mb[1], -2 * Mb[2], b @ Mb - r * r)]
+        else:
+            return None
+    for t in d.get('trs', []):
+        t['o'] = [float(v) for v in A @ np.array(t['o'], dtype=float)]
+    for c in d['cells']:
+        for key in ('trcl', 'ftr'):
+            c[key] = {'o': [float(v) for v in A @ np.array(c[key]['o'], dtype=float)], 'm': list(IDM)}
+    d.pop('plusspell', None)
+    return d
+
+
+def affine_points(pts2, A, b):
+    import numpy as np
+    A = np.array(A, dtype=float)
+    b = np.array(b, dtype=float)
+    return [tuple(float(v) for v in A @ (np.array(P, dtype=float) / 2.0) + b) for P in pts2]
+
+
+def hex_regular_map(deck):
+    """Linear map A that takes the hexagonal prism of the deck's LAT=2 cell to a REGULAR hexagonal prism (same
+    axis), or None when the hexagon is not an affine image of a regular one (its three scaled side normals
+    w_i = n_i / halfwidth_i must satisfy w1 +- w2 +- w3 = 0)."""
+    from fractions import Fraction
+    import numpy as np
+    cells = [c for c in deck['cells'] if c['lat'] == 2]
+    if len(cells) != 1:
+        return None
+    surfs = {s['n']: s for s in deck['surfs']}
+
+    def lv(t):
+        if t[0] == 'S':
+            return [t]
+        if t[0] in ('*', ':'):
+            return [x for k in t[1:] for x in lv(k)]
+        return []
+    leaves_ = lv(cells[0]['geom'])
+    if len(leaves_) not in (6, 8):
+        return None
+    halfspaces = []
+    for lf in leaves_:
+        s = surfs.get(abs(lf[1]))
+        if s is None or s.get('tr') or lf[2]:
+            return None
+        k, p, den = s['k'], s['p'], s.get('d', 1)
+        if k == 'p' and len(p) == 4:
+            n, dd = [Fraction(v, den) for v in p[:3]], Fraction(p[3], den)
+        elif k in ('px', 'py', 'pz'):
+            n = [Fraction(0)] * 3
+            n['xyz'.index(k[1])] = Fraction(1)
+            dd = Fraction(p[0], den)
+        else:
+            return None
+        if lf[1] > 0:        # n.x > d  ==  (-n).x < -d
+            n, dd = [-v for v in n], -dd
+        halfspaces.append((n, dd))
+    ws = []
+    for i in range(3):
+        (na, da), (nb, db) = halfspaces[2 * i], halfspaces[2 * i + 1]
+        j = next(k for k in range(3) if na[k] != 0)
+        mu = -nb[j] / na[j]
+        if mu <= 0 or any(nb[k] != -mu * na[k] for k in range(3)):
+            return None
+        h = (da + db / mu) / 2
+        if h <= 0:
+            return None
+        ws.append([v / h for v in na])
+    rel = None
+    for s2 in (1, -1):
+        for s3 in (1, -1):
+            if all(ws[0][k] + s2 * ws[1][k] + s3 * ws[2][k] == 0 for k in range(3)):
+                rel = (s2, s3)
+    if rel is None:
+        return None
+    w1 = np.array([float(v) for v in ws[0]])
+    w2 = np.array([float(v) for v in ws[1]])
+    axis = np.cross(w1, w2)
+    axis /= np.linalg.norm(axis)
+    c = np.linalg.norm(w1)
+    e1 = w1 / c
+    cos_t = -rel[0] / 2.0
+    sin_t = (1 - cos_t * cos_t) ** 0.5
+    e2 = cos_t * e1 + sin_t * np.cross(axis, e1)
+    target = np.column_stack([c * e1, c * e2, axis])
+    source = np.column_stack([w1, w2, axis])
+    AinvT = target @ np.linalg.inv(source)
+    A = np.linalg.inv(AinvT.T)
+    return [[float(v) for v in row] for row in A]
 
 
 # ---------------------------------------------------------------------------
